@@ -73,6 +73,24 @@ impl<Key, Value> Config<Key, Value>
     }
 }
 
+#[cfg(feature = "cached_verif")]
+impl<Key, Value> Config<Key, Value>
+    where Key: Hash + 'static,
+          Value: 'static {
+    /// (counters, capacity, total cache weight, pool size, buffer size, command buffer size, shards, tick duration)
+    pub fn verif_fields(&self) -> (TotalCounters, TotalCapacity, Weight, usize, usize, usize, TotalShards, Duration) {
+        (self.counters, self.capacity, self.total_cache_weight, self.access_pool_size.0, self.access_buffer_size.0,
+         self.command_buffer_size, self.shards, self.ttl_tick_duration)
+    }
+}
+
+#[cfg(feature = "cached_verif")]
+/// The default weight calculation with its parts: (weight, key size, value size, weighted key size, ttl entry size)
+pub fn verif_default_weight<Key, Value>(key: &Key, value: &Value, time_to_live_specified: IsTimeToLiveSpecified) -> (Weight, usize, usize, usize, usize) {
+    (Calculation::perform(key, value, time_to_live_specified), std::mem::size_of_val(key), std::mem::size_of_val(value),
+     std::mem::size_of::<crate::cache::policy::cache_weight::WeightedKey<Key>>(), Calculation::ttl_ticker_entry_size())
+}
+
 /// Convenient builder that allows creating an instance of Config.
 pub struct ConfigBuilder<Key, Value>
     where Key: Hash + 'static,
